@@ -423,6 +423,17 @@ fn run_cfg<T: Item + ItemA + 'static>(l: &str, lines: &[String], pos: &mut usize
     run_cfg_inner::<T>(l, lines, pos, out);
     if l.contains("vmem=1") { writeln!(out, "maps={}", vmem_maps()).unwrap(); }
 }
+/// the session starts with exactly the iterators the split handed out: the consumer's const parameter (does it follow a worker?) is
+/// INFERRED from the split's return type, not written down here - a split that hands out the wrong kind of consumer shows in behaviour
+fn start3<T: Item + ItemA + 'static, const WK: bool>(p: AsyncProdIter<'static, B<T>>, w: AsyncWorkIter<'static, B<T>>, c: AsyncConsIter<'static, B<T>, WK>,
+                                                      len: usize, lines: &[String], pos: &mut usize, out: &mut impl Write) {
+    run_session::<T, WK>(Sess { p: Slot::Att(Box::new(p)), w: Slot::Att(Box::new(w)), c: Slot::Att(Box::new(c)), held: [None, None, None], freed: false, len, task: 0, wakers: Wakers::new() }, lines, pos, out);
+}
+fn start2<T: Item + ItemA + 'static, const WK: bool>(p: AsyncProdIter<'static, B<T>>, c: AsyncConsIter<'static, B<T>, WK>,
+                                                      len: usize, lines: &[String], pos: &mut usize, out: &mut impl Write) {
+    run_session::<T, WK>(Sess { p: Slot::Att(Box::new(p)), w: Slot::Gone, c: Slot::Att(Box::new(c)), held: [None, None, None], freed: false, len, task: 0, wakers: Wakers::new() }, lines, pos, out);
+}
+
 fn run_cfg_inner<T: Item + ItemA + 'static>(l: &str, lines: &[String], pos: &mut usize, out: &mut impl Write) {
     let mut stages = 2; let mut init = vec![]; let mut ctor = "from".to_string();
     for w in l.split_whitespace().skip(1) { let (k, v) = w.split_once('=').unwrap();
@@ -444,10 +455,10 @@ fn run_cfg_inner<T: Item + ItemA + 'static>(l: &str, lines: &[String], pos: &mut
         run_session::<T, false>(Sess { p: Slot::Att(Box::new(p)), w: Slot::Gone, c: Slot::Att(Box::new(c)), held: [None, None, None], freed: false, len, task: 0, wakers: Wakers::new() }, lines, pos, out);
     } else if stages == 3 {
         let (p, w, c) = buf.split_mut_async();
-        run_session::<T, true>(Sess { p: Slot::Att(Box::new(p)), w: Slot::Att(Box::new(w)), c: Slot::Att(Box::new(c)), held: [None, None, None], freed: false, len, task: 0, wakers: Wakers::new() }, lines, pos, out);
+        start3::<T, _>(p, w, c, len, lines, pos, out);
     } else {
         let (p, c) = buf.split_async();
-        run_session::<T, false>(Sess { p: Slot::Att(Box::new(p)), w: Slot::Gone, c: Slot::Att(Box::new(c)), held: [None, None, None], freed: false, len, task: 0, wakers: Wakers::new() }, lines, pos, out);
+        start2::<T, _>(p, c, len, lines, pos, out);
     }
 }
 
